@@ -41,8 +41,10 @@ CHECK_MODULES = {
 
 
 def _gen(a):
-    chk, arm, i, run_seed, tier = a
-    case = chk.generate(arm, i, core.Streams(run_seed), tier)
+    chk, arm, i, run_seed, tier, verif_seed = a
+    st = core.Streams(run_seed)
+    st.verif_seed = verif_seed
+    case = chk.generate(arm, i, st, tier)
     case.setdefault("property", chk.pid)
     case["arm"] = arm
     case["run"] = i
@@ -57,8 +59,8 @@ def _exec(a):
 
 
 def _gen_exec(a):
-    chk, arm, i, run_seed, tier, want_sample = a
-    case = _gen((chk, arm, i, run_seed, tier))
+    chk, arm, i, run_seed, tier, want_sample, verif_seed = a
+    case = _gen((chk, arm, i, run_seed, tier, verif_seed))
     res = chk.execute(case)
     if res["viol"]:
         res["case"] = chk.resolve(case, res)
@@ -132,7 +134,7 @@ def _work(spec):
         want_sample = i == start and start % (5 * n) == 0
         try:
             if chk.split_generate:
-                case = pristine.run_in_child(_gen, (chk, arm, i, run_seed, tier), chk.run_timeout)
+                case = pristine.run_in_child(_gen, (chk, arm, i, run_seed, tier, verif_seed), chk.run_timeout)
                 if isinstance(case, tuple) and case and case[0] == "__exc__":
                     raise RuntimeError(case[1])
                 res = pristine.run_in_child(_exec, (chk, case), chk.run_timeout)
@@ -143,7 +145,7 @@ def _work(spec):
                         res["sample"] = chk.sample(case)
             else:
                 res = pristine.run_in_child(
-                    _gen_exec, (chk, arm, i, run_seed, tier, want_sample), chk.run_timeout
+                    _gen_exec, (chk, arm, i, run_seed, tier, want_sample, verif_seed), chk.run_timeout
                 )
         except pristine.ChildTimeout:
             agg.errors.append(f"{pid}/{arm}/{i}: run exceeded {chk.run_timeout}s wall (killed)")
